@@ -382,6 +382,25 @@ def run_shard(shard):
                     add_violation(res, "C04:same-frame:address-read-stale", f"one 16-bit frame object: address bits set to {a7:#04x}, from_frame gives {got}, the bits denote {want}",
                                   {"t": "sameframe"})
                     break
+        # objects an application has decorated with attributes of its own (a label on the object to be sent, a timestamp on a
+        # decoded one): equality is "kind and number agree", read-back included
+        for fam, descs in (("inst", INST), ("gear", GEAR[::5] + GEAR[-2:]), ("device", DEV[::6] + DEV[-2:])):
+            for desc in descs:
+                mk = (lambda: R.lib_mkinstance(desc)) if fam == "inst" else (lambda: R.lib_mkaddr(desc, fam))
+                a, b = mk(), mk()
+                a.label = "entrance"
+                bits = 16 if fam == "gear" else 24
+                f = FF(bits, 0x010000 if bits == 24 else 0)
+                a.add_to_frame(f)
+                back = A.instance_from_frame(f) if fam == "inst" else A.from_frame(f)
+                n += 1
+                ok = (a == b) and (b == a) and not (a != b) and (back == a) and (a == back)
+                if back is not None:
+                    back.seen_at = 12.5
+                    ok = ok and (back == b) and (b == back) and (back == a)
+                if not ok:
+                    add_violation(res, "C04:eq:decorated-object", f"{desc}: an object carrying an application attribute is no longer equal to an undecorated "
+                                  f"object of the same kind and number / to the object read back from its own frame ({a!r} vs {b!r} vs {back!r})", {"t": "sameframe"})
         res["evaluations"] += n
         res["distinct"].add(("sameframe", "ok"))
         sample(res, {"same_frame_object_rewritten": n})
